@@ -98,7 +98,7 @@ try:
         print("NLVGDB stack=" + ",".join(names(40)))
         looper = None
         if val("$rdi") == 98:
-            for step in range(16):
+            for step in range(6000):
                 if at_exit():
                     # undo the call of _exit: pop the return address and resume behind the call; the code that
                     # follows in match() resets the monitor's counter (done explicitly as well)
@@ -119,10 +119,7 @@ try:
             if looper:
                 print("NLVGDB looper=" + looper)
     else:
-        m = None
-        import re
-        m = re.search(r"Program (?:received signal|terminated with signal) (SIG[A-Z0-9]+)", out)
-        print("NLVGDB stop=signal sig=%s" % (m.group(1) if m else "?"))
+        print("NLVGDB stop=signal signo=%d" % val("$_siginfo.si_signo"))
         print("NLVGDB sp=%d fault=%d" % (val("$sp"), val("(unsigned long)$_siginfo._sifields._sigfault.si_addr")))
         print("NLVGDB stack=" + ",".join(names(64)))
         print("NLVGDB outer=" + ",".join(outer(8)))
@@ -134,12 +131,13 @@ except gdb.error:
     pass
 '''
 
-def _gdb(cfg, src, out, cpu):
-    """Run the plain build on `src` under gdb; -> dict(stop, sig, status, looper, stack, sp, fault, raw)."""
+def _gdb(cfg, src, out, cpu, fast=False):
+    """Run the plain build on `src` under gdb; -> dict(stop, signo, status, looper, stack, outer, sp, fault, raw).
+    fast: skip reading debug info (enough to find the looping parser function; not enough to unwind out of libc)."""
     if not cfg["gdb"]:
         return None
-    cmd = [cfg["gdb"], "-q", "-batch", "-nx", "-readnever", "-ex", "source " + cfg["gdbscript"], "--args",
-           cfg["plain"], src, "--emit-nvm", "-o", out]
+    cmd = [cfg["gdb"], "-q", "-batch", "-nx"] + (["-readnever"] if fast else []) + [
+           "-ex", "source " + cfg["gdbscript"], "--args", cfg["plain"], src, "--emit-nvm", "-o", out]
     r = sh(cmd, cwd=cfg["root"], env={"TMPDIR": cfg["tmp"]}, cpu=cpu, wall=max(120, 20 * cpu), stack_mb=8,
            max_out=96 << 20)
     txt = r.text() + "\n" + r.errtext()
@@ -163,6 +161,11 @@ def _phase(gd):
     if o and o[0] == "main":
         o = o[1:]
     return o[0] if o else "unclassified"
+
+
+# functions called from main() after the front end (lexer, parser, imports, type checker) has accepted the program
+BACK_END = {"codegen_compile", "nvm_serialize", "nvm_module_free", "wrapper_generate", "wrapper_generate_daemon",
+            "vm_ffi_init", "vm_ffi_set_env", "vm_ffi_load_module", "vm_ffi_shutdown", "nvm_verify"}
 
 
 def _distinct2(fs):
@@ -245,7 +248,7 @@ def _asan_key(err):
         if fm:
             ff = _frames(fm.group(1))
             key += "|freed-in:" + (_distinct2(ff))
-        return kind, key
+        return kind, key, bool(set(fr) & BACK_END)
     m = UBSAN_ERR.search(err)
     if m:
         msg = re.sub(r"0x[0-9a-f]+", "X", m.group(4))
@@ -255,8 +258,8 @@ def _asan_key(err):
         fr = _frames(_first_stack(err[m.start():]))
         if not fr:
             fr = [os.path.basename(m.group(1))]
-        return "ubsan", "ubsan|%s|%s" % (msg, _distinct2(fr))
-    return None, None
+        return "ubsan", "ubsan|%s|%s" % (msg, _distinct2(fr)), bool(set(fr) & BACK_END)
+    return None, None, False
 
 
 def _diag_lines(r):
@@ -321,11 +324,11 @@ def _one_flavor(cfg, flavor, src, out, cpu, big):
     if r.rc == 98 or NO_PROGRESS_TEXT in err[-4000:]:
         return "no-progress", "no-progress|?", r
     if flavor == "asan":
-        kind, key = _asan_key(err)
+        kind, key, backend = _asan_key(err)
         if kind == "stack-overflow":
             return "stack-overflow", None, r          # only believed if the plain build overflows as well
         if key:
-            return "sanitizer", key, r
+            return ("backend-sanitizer" if backend else "sanitizer"), key, r
     if r.cpu_exceeded:
         if big:
             return "large-input-over-budget", None, r  # the time budget is only defined for inputs <= 64 KiB
@@ -359,7 +362,8 @@ def oracle(cfg, data, want_reject=False, label=""):
         f.write(data)
     big = len(data) > ms.MAX_INPUT
     cpu = 2 * CPU if big else CPU
-    events = []          # (key, text)
+    events = []          # (key, text): refute the property
+    backend = []         # (key, text): crashes after the front end accepted (bytecode generator) - recorded, not C09
     gd = None
     # ------------------------------------------------------------------ plain build (real stack, real signals)
     op, kp, rp = _one_flavor(cfg, "plain", src, out, cpu, big)
@@ -370,30 +374,21 @@ def oracle(cfg, data, want_reject=False, label=""):
             r2 = _run_flavor(cfg, "plain", src, out, cpu)
             confirmed = r2.cpu_exceeded
         else:
-            confirmed = gd.get("stop") == "signal" and gd.get("sig") == "SIGXCPU"
+            confirmed = gd.get("stop") == "signal" and gd.get("signo") == str(int(signal.SIGXCPU))
         if confirmed:
             cause = "diagnostic-flood|" if _flood(rp) else ""
-            events.append(("budget|cpu|%s%s" % (cause, _phase(gd) if gd else "unclassified"),
-                           "plain build exceeds %d s of CPU twice on a %d byte input (%d bytes of diagnostics); stage: %s; innermost frames %s"
-                           % (cpu, len(data), len(rp.err) + len(rp.out), _phase(gd), ",".join(((gd or {}).get("stack") or [])[:6]))))
+            ev = ("budget|cpu|%s%s" % (cause, _phase(gd) if gd else "unclassified"),
+                  "plain build exceeds %d s of CPU twice on a %d byte input (%d bytes of diagnostics); stage: %s; innermost frames %s"
+                  % (cpu, len(data), len(rp.err) + len(rp.out), _phase(gd), ",".join(((gd or {}).get("stack") or [])[:6])))
+            (backend if _phase(gd) in BACK_END else events).append(ev)
         else:
             op, kp, rp = _one_flavor(cfg, "plain", src, out, cpu, big)
             if op == "budget-cpu":
                 op, kp = "near-budget", None     # flapping around the budget: not believed
     elif op in ("no-progress", "signal"):
-        gd = _gdb(cfg, src, out, cpu)
-    if op == "signal":
-        st = (gd or {}).get("stack") or []
-        sp, fault = int((gd or {}).get("sp", -1)), int((gd or {}).get("fault", -2))
-        if rp.sig == signal.SIGSEGV and st and sp > 0 and abs(fault - sp) < (1 << 20):
-            fn = _recursive_fn(st, cfg["own"])
-            op = "stack-overflow"
-            events.append(("stack-overflow|" + fn,
-                           "plain build (default 8 MiB stack) dies with SIGSEGV at the stack pointer: unbounded recursion in %s" % fn))
-        else:
-            events.append(("signal|%s|%s" % (_signame(rp.sig), _sig_gdb(st, cfg["own"]) if st else "unclassified"),
-                           "plain build killed by %s; innermost frames %s" % (_signame(rp.sig), ",".join(st[:8]))))
-    elif kp and op not in ("no-progress", "budget-cpu"):
+        gd = _gdb(cfg, src, out, cpu, fast=(op == "no-progress"))
+    plain_signal = (op == "signal")
+    if kp and op not in ("no-progress", "budget-cpu", "signal"):
         events.append((kp, "plain build: %s (rc=%s)" % (op, rp.rc)))
     # ------------------------------------------------------------------ asan build (memory errors, UB)
     if op == "budget-cpu":
@@ -412,14 +407,45 @@ def oracle(cfg, data, want_reject=False, label=""):
                     oa, ka = "near-budget", None
         if oa == "sanitizer":
             events.append((ka, "sanitizer report (asan build)\n" + (ra.sanitizer_report() or "")[:2500]))
+        elif oa == "backend-sanitizer":
+            backend.append((ka, "sanitizer report in the bytecode generator (after the front end accepted the program)"))
         elif oa == "signal":
             events.append(("signal|%s|asan-build" % _signame(ra.sig), "asan build killed by %s without a report" % _signame(ra.sig)))
-        elif ka and oa not in ("no-progress", "budget-cpu", "stack-overflow"):
+        elif ka and oa not in ("no-progress", "budget-cpu", "stack-overflow", "backend-sanitizer"):
             events.append((ka, "asan build: %s (rc=%s)" % (oa, ra.rc)))
+    # ------------------------------------------------------------------ fatal signal of the plain build
+    if plain_signal:
+        st = (gd or {}).get("stack") or []
+        sp, fault = int((gd or {}).get("sp", -1)), int((gd or {}).get("fault", -2))
+        phase = _phase(gd)
+        own = [f for f in st if f in cfg["own"]]
+        if rp.sig == signal.SIGSEGV and own and sp > 0 and abs(fault - sp) < (1 << 20):
+            fn = _recursive_fn(st, cfg["own"])
+            op = "stack-overflow"
+            ev = ("stack-overflow|" + fn,
+                  "plain build (default 8 MiB stack) dies with SIGSEGV at the stack pointer: unbounded recursion in %s" % fn)
+        elif own:
+            ev = ("signal|%s|%s" % (_signame(rp.sig), _distinct2(own)),
+                  "plain build killed by %s; innermost frames %s" % (_signame(rp.sig), ",".join(st[:8])))
+        elif oa in ("sanitizer", "backend-sanitizer") and ka:
+            # the stack of the plain build could not be unwound (crash inside libc's allocator): the asan build's
+            # report of the same input names the site
+            site = ka.split("|")[2] if ka.count("|") >= 2 else "?"
+            ev = ("signal|%s|%s" % (_signame(rp.sig), site),
+                  "plain build killed by %s (stack not unwindable); site taken from the asan report of the same input" % _signame(rp.sig))
+            if oa == "backend-sanitizer":
+                phase = "codegen_compile"
+        else:
+            ev = ("signal|%s|unclassified" % _signame(rp.sig), "plain build killed by %s; no usable stack" % _signame(rp.sig))
+        if phase in BACK_END:
+            op = "backend-" + op
+            backend.append(ev)
+        else:
+            events.append(ev)
     # ------------------------------------------------------------------ parser no-progress monitor (either build)
     if "no-progress" in (oa, op):
-        if gd is None and cfg["gdb"]:
-            gd = _gdb(cfg, src, out, cpu)
+        if (gd is None or "looper" not in gd) and cfg["gdb"]:
+            gd = _gdb(cfg, src, out, cpu, fast=True)
         looper = (gd or {}).get("looper")
         if gd is None:
             looper = "unclassified"
@@ -430,7 +456,7 @@ def oracle(cfg, data, want_reject=False, label=""):
     # ------------------------------------------------------------------ nesting beyond the documented limit
     if want_reject:
         for fl, o in (("asan", oa), ("plain", op)):
-            if o == "accept":
+            if o == "accept" or o.startswith("backend-"):
                 events.append(("depth-limit-not-enforced|" + label,
                                "nesting beyond the documented maximum depth was accepted (exit 0, %s build)" % fl))
                 break
@@ -442,6 +468,8 @@ def oracle(cfg, data, want_reject=False, label=""):
             ev.append((k, t))
     if ev:
         outcome = ev[0][0].split("|")[0]
+    elif backend:
+        outcome = "accept+backend-crash"
     elif "watchdog" in (oa, op):
         outcome = "watchdog"
     elif oa in ("accept", "diagnosed"):
@@ -450,6 +478,7 @@ def oracle(cfg, data, want_reject=False, label=""):
         outcome = op if oa in ("skipped", "stack-overflow") else oa
     both = ("accept", "diagnosed")
     rec = {"outcome": outcome, "asan": oa, "plain": op, "diag": diag_class(ra if oa != "skipped" else rp), "events": ev,
+           "backend": [k for k, _t in backend],
            "agree": (oa == op) or oa not in both or op not in both}
     if ev:
         rec["detail"] = {
@@ -528,6 +557,8 @@ def _worker(arg):
                 rec["input"] = data if len(data) <= (1 << 20) else data[:1 << 20]
             else:
                 rec.pop("detail", None)
+        if rec["backend"] and len(data) <= 600:
+            rec["backend_input"] = data.decode("latin-1")
         out.append(rec)
     return out
 
@@ -697,7 +728,13 @@ def run(ctx):
         samples = []
         wit_seen = {}
         need_gdb_missing = 0
+        backend = {}
         for rec in results:
+            for k in rec["backend"]:
+                b = backend.setdefault(k, {"count": 0, "first_case": "%s %s" % (rec["mut"], list(rec["case"][:3]))})
+                b["count"] += 1
+                if "example_input" not in b and "backend_input" in rec:
+                    b["example_input"] = rec["backend_input"]
             mut = rec["mut"]
             oc = rec["outcome"]
             hist[oc] = hist.get(oc, 0) + 1
@@ -766,12 +803,15 @@ def run(ctx):
             "depth_results(asan/plain)": {g: {str(d): v for d, v in sorted(t.items())} for g, t in sorted(depth_tab.items())},
             "max_depth_handled_per_generator": max_ok,
             "asan_only_stack_overflows_not_reported": asan_only_so,
+            "crashes_after_the_front_end_accepted(bytecode generator; outside C09, not counted)": backend,
             "accept_vs_diagnose_disagreements_between_builds": disagree,
             "seeds": {"generated": len([s for s in seeds if s[1] is None]), "repository": len([s for s in seeds if s[1] is not None])},
             "witnesses_replayed": n_wit,
             "samples": samples,
         }, assumptions=[
-            "front end = nano_virt <file> --emit-nvm -o <out> (lexer, parser, import processing, type checker, bytecode generation; nothing is executed)",
+            "front end = nano_virt <file> --emit-nvm -o <out> (lexer, parser, import processing, type checker; nothing is executed). "
+            "The command also runs the bytecode generator; a crash whose stack lies below codegen_compile/nvm_serialize happens after "
+            "the front end accepted the program and is recorded in the evidence, not counted against C09",
             "two processes per input: asan flavor (ASan+UBSan, 1 GiB stack, 3 GiB hard RSS limit) and plain flavor (8 MiB stack, 4 GiB address space)",
             "time budget = %d s CPU per 64 KiB of input, exceeded twice in a row; the H4 monitor aborts after 5e6 match() calls at one token" % CPU,
             "imports resolve against the repository's modules/ stdlib/ std/ (symlinked into the scratch working directory)",
